@@ -156,9 +156,10 @@ def _module_theorems(p):
         if m and ns and ns[-1] == m.group(1):
             ns.pop()
             continue
-        m = re.match(r"\s*(?:@\[[^\]]*\]\s*)?(?:protected\s+|private\s+)?theorem\s+(\S+)", line)
-        if m:
-            names.append(".".join(ns + [m.group(1)]))
+        m = re.match(r"\s*(?:@\[[^\]]*\]\s*)?(protected\s+|private\s+)?theorem\s+(\S+)", line)
+        if m and not (m.group(1) or "").startswith("private"):
+            # private helpers cannot be named from the audit file; the public theorems that use them carry their axioms
+            names.append(".".join(ns + [m.group(2)]))
     return names
 
 
